@@ -976,6 +976,9 @@ func processValue(fset *token.FileSet, info *types.Info, call *ast.CallExpr) (*V
 	}
 	// Result type can't be an interface type; use wire.InterfaceValue for that.
 	argType := info.TypeOf(call.Args[0])
+	if isUntypedNil(argType) {
+		return nil, notePosition(fset.Position(call.Pos()), errors.New("argument to Value may not be the untyped nil"))
+	}
 	if _, isInterfaceType := argType.Underlying().(*types.Interface); isInterfaceType {
 		return nil, notePosition(fset.Position(call.Pos()), fmt.Errorf("argument to Value may not be an interface value (found %s); use InterfaceValue instead", types.TypeString(argType, nil)))
 	}
@@ -1005,6 +1008,11 @@ func processInterfaceValue(fset *token.FileSet, info *types.Info, call *ast.Call
 		return nil, notePosition(fset.Position(call.Pos()), fmt.Errorf("first argument to InterfaceValue must be a pointer to an interface type; found %s", types.TypeString(ifaceArgType, nil)))
 	}
 	provided := info.TypeOf(call.Args[1])
+	if isUntypedNil(provided) {
+		// The untyped nil "implements" an interface without methods, but
+		// there is no value to provide.
+		return nil, notePosition(fset.Position(call.Pos()), errors.New("second argument to InterfaceValue may not be the untyped nil"))
+	}
 	if !types.Implements(provided, methodSet) {
 		return nil, notePosition(fset.Position(call.Pos()), fmt.Errorf("%s does not implement %s", types.TypeString(provided, nil), types.TypeString(iface, nil)))
 	}
@@ -1151,6 +1159,11 @@ func findInjectorBuild(info *types.Info, fn *ast.FuncDecl) (*ast.CallExpr, error
 
 func isWireImport(path string) bool {
 	return unvendorPath(path) == "github.com/google/wire"
+}
+
+func isUntypedNil(t types.Type) bool {
+	b, ok := t.(*types.Basic)
+	return ok && b.Kind() == types.UntypedNil
 }
 
 func isProviderSetType(t types.Type) bool {
